@@ -13,6 +13,11 @@ for name in sys.argv[1:]:
             shutil.copy(p, dst)
     notes = open(f'{src}/notes.md').read() if os.path.exists(f'{src}/notes.md') else ''
     m = re.search(r'tests_ok=(\S+) tests_fail=(\S+) check_exit=(\d+) violations=(\d+)', summary)
+    tests_ok = tests_fail = '?'
+    if os.path.exists(f'{res}/tests.log'):
+        tl = open(f'{res}/tests.log').read().splitlines()
+        tests_ok = str(sum(1 for l in tl if l.startswith('ok')))
+        tests_fail = str(sum(1 for l in tl if l.startswith('FAIL') or l.startswith('--- FAIL')))
     viol = []
     if os.path.exists(f'{res}/check.log'):
         for l in open(f'{res}/check.log'):
@@ -27,7 +32,7 @@ for name in sys.argv[1:]:
         'what_it_needs_to_manifest': (re.search(r'(?is)(what (it|is) need(s|ed)[^\n]*\n.*?)(\n#|\n\n\n|\Z)', notes) or [None, ''])[1][:1500] if notes else '',
         'confirmed_by_me': {
             'command': f'tools/seedcheck.sh {name} quick   (scratch worktree of /repo HEAD + patch.diff: go build ./..., full go test suite, then VERIF_REPO=<worktree> ./run {name.split("-")[0]} quick)',
-            'repo_tests_ok_packages': m.group(1) if m else '?', 'repo_tests_failures': m.group(2) if m else '?',
+            'repo_tests_ok_packages': tests_ok, 'repo_tests_failures': tests_fail,
             'check_exit': int(m.group(3)) if m else None, 'violations_reported': int(m.group(4)) if m else None,
         },
         'caught_by_quick': bool(m and m.group(3) == '1'),
